@@ -137,14 +137,12 @@ def update_model(ctx):
     return n, problems
 
 
-_cache = {}
-
-
 def report(ctx, prop, rule):
-    key = id(ctx.repo)
-    if key not in _cache:
-        _cache[key] = update_model(ctx)
-    n, problems = _cache[key]
+    # one model run per check run (never keyed by id(): ids are reused after garbage collection)
+    memo = ctx.__dict__.setdefault('_model_memo', {})
+    if 'update_model' not in memo:
+        memo['update_model'] = update_model(ctx)
+    n, problems = memo['update_model']
     f = ctx.repo.func(P + "Parameters._update")
     ctx.abstract_cases += n
     bad = problems[prop]
